@@ -340,6 +340,96 @@ Proof.
       apply IHe2; [exact W2|apply okn_of_clo; exact C].
 Qed.
 
+(* ================= normalisation preserves well-formedness ================= *)
+(* wfe without its condition on the unary minus, plus "every expression root is a tree the parser can return" *)
+Fixpoint wfe1 (e : exp) : Prop :=
+  let all := fix all (l : list exp) (fld : bool) : Prop := match l with [] => True | x :: r => (wfe1 x /\ isfield x = fld) /\ all r fld end in
+  match e with
+  | ENil | ETrue | EFalse | EVararg => True
+  | ENum s => match s with c0 :: s' => wf_decimal v c0 s' | [] => False end
+  | EStr s => forall q, wf_qbody v (qchar q) (Quote.rewrite q s)
+  | EName n => wf_name n
+  | EField p n => wfe1 p /\ prefixlike p = true /\ wf_name n
+  | EIndex p k => wfe1 p /\ prefixlike p = true /\ wfe1 k /\ isfield k = false
+  | ECall f args => wfe1 f /\ prefixlike f = true /\ all args false
+  | EMethod o m args => wfe1 o /\ prefixlike o = true /\ wf_name m /\ all args false
+  | EUn u x => wfe1 x /\ isfield x = false /\ can (shape (EUn u x)) = true /\ match u with BNot => False | _ => True end
+  | EBin b l r => wf_bop b = true /\ wfe1 l /\ isfield l = false /\ wfe1 r /\ isfield r = false
+  | EParen x => wfe1 x /\ isfield x = false
+  | ETable fs => all fs true
+  | FPos x => wfe1 x /\ isfield x = false
+  | FNamed n x => wf_name n /\ wfe1 x /\ isfield x = false
+  | FKey k x => wfe1 k /\ isfield k = false /\ wfe1 x /\ isfield x = false
+  end.
+Fixpoint wfl1 (l : list exp) (fld : bool) : Prop := match l with [] => True | x :: r => (wfe1 x /\ isfield x = fld) /\ wfl1 r fld end.
+Lemma isfield_nexp e cx : wfe1 e -> isfield (nexp cx e) = isfield e.
+Proof.
+  revert cx. induction e; intros cx W; cbn [nexp]; try reflexivity.
+  destruct W as (W & F). destruct (Parens.droppable cx (shape e)); [|reflexivity]. rewrite (IHe cx W). exact F.
+Qed.
+Lemma isfield_paren_inner e : isfield e = false -> True. Proof. trivial. Qed.
+Lemma prefixlike_nexp e : prefixlike e = true -> prefixlike (nexp Parens.Prefix e) = true.
+Proof. destruct e; try discriminate; intros _; cbn [nexp]; try reflexivity. unfold Parens.droppable. cbn. rewrite andb_false_r. reflexivity. Qed.
+Lemma prefix_fc p : wfe p -> prefixlike p = true -> Ascii.eqb (fc p) "-" = false.
+Proof.
+  induction p; intros W P; try discriminate; cbn [fc].
+  - destruct (wf_name_hd n W) as (ch & r & E & I). subst n. cbn [hd0]. apply (good_ne ch "-" eq_refl) in I || idtac.
+    destruct (Ascii.eqb ch "-") eqn:Q; [|reflexivity]. apply Ascii.eqb_eq in Q. subst ch. discriminate.
+  - destruct W as (W & P1 & _). apply IHp; assumption.
+  - destruct W as (W & P1 & _). apply IHp1; assumption.
+  - destruct W as (W & P1 & _). apply IHp; assumption.
+  - destruct W as (W & P1 & _). apply IHp; assumption.
+  - reflexivity.
+Qed.
+Lemma fc_lmost : forall y, wfe y -> isfield y = false -> lmost_neg (shape y) = false -> Ascii.eqb (fc y) "-" = false.
+Proof.
+  induction y; intros W F L; try discriminate; cbn [fc]; try reflexivity.
+  - cbn [wfe] in W. destruct s as [|c0 s']; [contradiction|]. destruct (wf_decimal_digit _ _ W) as [D _]. rewrite (number_rewrite_digit c0 s' D). cbn [hd0].
+    destruct (Ascii.eqb c0 "-") eqn:Q; [|reflexivity]. apply Ascii.eqb_eq in Q. subst c0. discriminate.
+  - destruct (QuoteMore.choose st s); reflexivity.
+  - apply (prefix_fc (EName n) W eq_refl).
+  - apply (prefix_fc (EField y n) W eq_refl).
+  - apply (prefix_fc (EIndex y1 y2) W eq_refl).
+  - apply (prefix_fc (ECall y args) W eq_refl).
+  - apply (prefix_fc (EMethod y m args) W eq_refl).
+  - destruct u; try reflexivity. cbn in L. discriminate.
+  - destruct W as (_ & W & Fl & _). cbn [shape lmost_neg] in L. apply IHy1; assumption.
+Qed.
+Lemma wfe_guard u y : wfe y -> isfield y = false -> (u = Neg -> Parens.starts_neg (shape y) = false -> lmost_neg (shape y) = false) ->
+  match u with BNot => False | _ => True end -> wfe (EUn u (guard0 u y)).
+Proof.
+  intros W F L U. cbn [wfe]. unfold guard0. destruct u; try contradiction.
+  - destruct (Parens.starts_neg (shape y)) eqn:S.
+    + split; [cbn [wfe]; split; assumption|]. split; reflexivity.
+    + split; [exact W|]. split; [exact F|]. apply fc_lmost; [exact W|exact F|]. apply L; reflexivity.
+  - split; [exact W|]. split; [exact F|exact I].
+  - split; [exact W|]. split; [exact F|exact I].
+Qed.
+Theorem wfe_nexp : forall e, wfe1 e -> forall cx, wfe (nexp cx e).
+Proof.
+  induction e using exp_ind'; intros W cx; cbn [nexp]; try exact W.
+  - (* field *) destruct W as (W & P & N). cbn [wfe]. split; [apply IHe; exact W|]. split; [apply prefixlike_nexp; exact P|exact N].
+  - (* index *) destruct W as (W1 & P & W2 & F). cbn [wfe]. split; [apply IHe1; exact W1|]. split; [apply prefixlike_nexp; exact P|].
+    split; [apply IHe2; exact W2|]. rewrite (isfield_nexp _ _ W2). exact F.
+  - (* call *) destruct W as (W1 & P & W2). cbn [wfe]. split; [apply IHe; exact W1|]. split; [apply prefixlike_nexp; exact P|].
+    change (wfl (map (nexp Parens.Std) args) false). change (wfl1 args false) in W2. clear IHe W1 P. induction args as [|a r IHr]; [exact I|].
+    inversion H as [|? ? Ha Hr]; subst. destruct W2 as [[Wa Fa] Wr]. cbn [map wfl]. split; [split; [apply Ha; exact Wa|rewrite (isfield_nexp _ _ Wa); exact Fa]|apply IHr; assumption].
+  - (* method *) destruct W as (W1 & P & N & W2). cbn [wfe]. split; [apply IHe; exact W1|]. split; [apply prefixlike_nexp; exact P|]. split; [exact N|].
+    change (wfl (map (nexp Parens.Std) args) false). change (wfl1 args false) in W2. clear IHe W1 P. induction args as [|a r IHr]; [exact I|].
+    inversion H as [|? ? Ha Hr]; subst. destruct W2 as [[Wa Fa] Wr]. cbn [map wfl]. split; [split; [apply Ha; exact Wa|rewrite (isfield_nexp _ _ Wa); exact Fa]|apply IHr; assumption].
+  - (* unary *) destruct W as (W & F & K & U). apply wfe_guard; [apply IHe; exact W|rewrite (isfield_nexp _ _ W); exact F| |exact U].
+    intros -> S. pose proof (Fmt0Proof.nexp_no_double_minus (EUn Neg e) cx K) as ND. cbn [nexp shape no_double_minus] in ND.
+    rewrite Fmt0Proof.shape_guard in ND. unfold Parens.guard in ND. rewrite S in ND. apply andb_true_iff in ND. destruct ND as [_ ND]. apply negb_true_iff in ND. exact ND.
+  - (* binary *) destruct W as (B & W1 & F1 & W2 & F2). cbn [wfe]. split; [exact B|]. split; [apply IHe1; exact W1|]. split; [rewrite (isfield_nexp _ _ W1); exact F1|].
+    split; [apply IHe2; exact W2|rewrite (isfield_nexp _ _ W2); exact F2].
+  - (* parentheses *) destruct W as (W & F). destruct (Parens.droppable cx (shape e)); [apply IHe; exact W|]. cbn [wfe]. split; [apply IHe; exact W|rewrite (isfield_nexp _ _ W); exact F].
+  - (* table *) change (wfl (map (nexp Parens.Std) fs) true). change (wfl1 fs true) in W. induction fs as [|a r IHr]; [exact I|].
+    inversion H as [|? ? Ha Hr]; subst. destruct W as [[Wa Fa] Wr]. cbn [map wfl]. split; [split; [apply Ha; exact Wa|rewrite (isfield_nexp _ _ Wa); exact Fa]|apply IHr; assumption].
+  - destruct W as (W & F). cbn [wfe]. split; [apply IHe; exact W|rewrite (isfield_nexp _ _ W); exact F].
+  - destruct W as (N & W & F). cbn [wfe]. split; [exact N|]. split; [apply IHe; exact W|rewrite (isfield_nexp _ _ W); exact F].
+  - destruct W as (W1 & F1 & W2 & F2). cbn [wfe]. split; [apply IHe1; exact W1|]. split; [rewrite (isfield_nexp _ _ W1); exact F1|]. split; [apply IHe2; exact W2|rewrite (isfield_nexp _ _ W2); exact F2].
+Qed.
+
 (* ================= statements ================= *)
 (* "good segment": its tokens are well formed and each is compatible with what follows, given the first character [n]
    of what follows the segment *)
@@ -611,4 +701,92 @@ Theorem pprog_relexes p : wfb p ->
 Proof.
   intros W. destruct (proj2 gs_all p W 0 None) as [A B]. apply (LexAdj.adj_relex v Hjit); assumption.
 Qed.
+
+(* ---- normalisation preserves the well-formedness of programs: the lexical theorem applies to what format0 prints ---- *)
+Definition wfes1 (es : list exp) : Prop := Forall (fun e => wfe1 e /\ isfield e = false) es.
+Definition wfcond1 (e : exp) : Prop := wfe1 e /\ isfield e = false.
+Fixpoint wfs1 (s : stmt) : Prop :=
+  match s with
+  | SLocal ns es => ns <> [] /\ Forall wf_name ns /\ wfes1 es
+  | SAssign vs es => vs <> [] /\ es <> [] /\ wfes1 vs /\ wfes1 es
+  | SCall e => wfcond1 e
+  | SDo b => wfb1 b
+  | SWhile e b => wfcond1 e /\ wfb1 b
+  | SRepeat b e => wfb1 b /\ wfcond1 e
+  | SIf e t r => wfcond1 e /\ wfb1 t /\ wfr1 r
+  | SNumFor x a b so body => wf_name x /\ wfcond1 a /\ wfcond1 b /\ match so with Some y => wfcond1 y | None => True end /\ wfb1 body
+  | SGenFor ns es body => ns <> [] /\ Forall wf_name ns /\ es <> [] /\ wfes1 es /\ wfb1 body
+  | SFunction p m ps va body => p <> [] /\ Forall wf_name p /\ match m with Some y => wf_name y | None => True end /\ Forall wf_name ps /\ wfb1 body
+  | SLocalFunction x ps va body => wf_name x /\ Forall wf_name ps /\ wfb1 body
+  | SReturn es => wfes1 es
+  | SBreak => True
+  end
+with wfr1 (r : els) : Prop := match r with NoElse => True | Else b => wfb1 b | ElseIf e t r2 => wfcond1 e /\ wfb1 t /\ wfr1 r2 end
+with wfi1 (i : item) : Prop :=
+  match i with Item l _ s t => wf_triv l /\ wfs1 s /\ match t with Some x => wf_com x | None => True end end
+with wfb1 (b : blk) : Prop :=
+  match b with Blk is tl => (fix all (l : list item) : Prop := match l with [] => True | x :: r => wfi1 x /\ all r end) is /\ wf_triv tl end.
+Fixpoint wfis1 (l : list item) : Prop := match l with [] => True | x :: r => wfi1 x /\ wfis1 r end.
+Lemma wfes_nexps es : wfes1 es -> wfes (nexps es).
+Proof.
+  unfold wfes1, wfes, nexps. intros H. apply Forall_map. eapply Forall_impl; [|exact H]. intros e [W F]. split; [apply wfe_nexp; exact W|rewrite (isfield_nexp _ _ W); exact F].
+Qed.
+Lemma nexps_ne es : es <> [] -> nexps es <> []. Proof. destruct es; [contradiction|discriminate]. Qed.
+Lemma wfcond_nexp e : wfcond1 e -> wfcond (nexp Parens.Std e).
+Proof. intros [W F]. split; [apply wfe_nexp; exact W|rewrite (isfield_nexp _ _ W); exact F]. Qed.
+Lemma wfcond_ncond e : wfcond1 e -> wfcond (ncond e).
+Proof.
+  intros [W F]. destruct e; try (apply wfcond_nexp; split; assumption).
+  unfold ncond. destruct W as [W Fx]. split; [apply wfe_nexp; exact W|rewrite (isfield_nexp _ _ W); exact Fx].
+Qed.
+Theorem wfb_nblk : (forall s, wfs1 s -> wfs (nstmt s)) /\ (forall b, wfb1 b -> wfb (nblk b)).
+Proof.
+  assert (HI : forall is, Forall (fun i => wfi1 i -> wfi (nitem i)) is -> wfis1 is -> wfis (map nitem is)).
+  { induction 1 as [|i r Hi Hr IH]; intros W; [exact I|]. destruct W as [W1 W2]. cbn [map wfis]. split; [apply Hi; exact W1|apply IH; exact W2]. }
+  assert (H : forall s, wfs1 s -> wfs (nstmt s)).
+  - apply (stmt_ind' (fun s => wfs1 s -> wfs (nstmt s)) (fun r => wfr1 r -> wfr (nels r)) (fun i => wfi1 i -> wfi (nitem i)) (fun b => wfb1 b -> wfb (nblk b))); intros; cbn [nstmt nels nitem nblk wfs wfr wfi] in *.
+    + destruct H as (A & B & C). split; [exact A|]. split; [exact B|apply wfes_nexps; exact C].
+    + destruct H as (A & B & C & D). split; [apply nexps_ne; exact A|]. split; [apply nexps_ne; exact B|]. split; apply wfes_nexps; assumption.
+    + apply wfcond_nexp. exact H.
+    + apply H. exact H0.
+    + destruct H0 as [A B]. split; [apply wfcond_ncond; exact A|apply H; exact B].
+    + destruct H0 as [A B]. split; [apply H; exact A|apply wfcond_ncond; exact B].
+    + destruct H1 as (A & B & C). split; [apply wfcond_ncond; exact A|]. split; [apply H; exact B|apply H0; exact C].
+    + destruct H0 as (A & B & C & D & E). split; [exact A|]. split; [apply wfcond_nexp; exact B|]. split; [apply wfcond_nexp; exact C|].
+      split; [destruct st0; cbn [option_map]; [apply wfcond_nexp; exact D|exact I]|apply H; exact E].
+    + destruct H0 as (A & B & C & D & E). split; [exact A|]. split; [exact B|]. split; [apply nexps_ne; exact C|]. split; [apply wfes_nexps; exact D|apply H; exact E].
+    + destruct H0 as (A & B & C & D & E). split; [exact A|]. split; [exact B|]. split; [exact C|]. split; [exact D|apply H; exact E].
+    + destruct H0 as (A & B & C). split; [exact A|]. split; [exact B|apply H; exact C].
+    + apply wfes_nexps. exact H.
+    + exact I.
+    + exact I.
+    + apply H. exact H0.
+    + destruct H1 as (A & B & C). split; [apply wfcond_ncond; exact A|]. split; [apply H; exact B|apply H0; exact C].
+    + destruct H0 as (A & B & C). split; [exact A|]. split; [apply H; exact B|exact C].
+    + change (wfis1 is /\ wf_triv tl) in H0. destruct H0 as [A B]. change (wfis (map nitem is) /\ wf_triv tl). split; [apply HI; assumption|exact B].
+  - split; [exact H|]. intros b. destruct b as [is tl]. intros W. change (wfis1 is /\ wf_triv tl) in W. destruct W as [A B]. cbn [nblk]. change (wfis (map nitem is) /\ wf_triv tl).
+    split; [|exact B]. apply HI; [|exact A]. apply Forall_forall. intros i _. destruct i as [l bl s t]. intros (X & Y & Z). cbn [nitem wfi]. split; [exact X|]. split; [apply H; exact Y|exact Z].
+Qed.
+(* C01 on L0, end to end: what the model of the formatter prints for a well-formed program lexes back to its tokens *)
+Theorem format0_relexes p : wfb1 p ->
+  lex_loop v (S (List.length (format0 c p))) (format0 c p) = Some (pprog c (nprog p)).
+Proof. intros W. unfold format0. apply pprog_relexes. apply (proj2 wfb_nblk). exact W. Qed.
 End Lexical.
+
+(* non-vacuity: a program with a comment, a guarded double minus, a call with a number and a string, a nested block *)
+Definition v51 : ver := {| v52 := false; v53 := false; v54 := false; vluau := false; vjit := false |}.
+Definition cfg_example : cfg0 := {| windows0 := false; spaces0 := false; width0 := 4; style0 := QuoteMore.AutoDouble |}.
+Definition prog_example : blk :=
+  Blk [ Item [(false, str " a comment")] false
+          (SLocal [str "x"] [EUn Neg (EParen (EUn Neg (ECall (EName (str "f")) [ENum (str "12"); EStr (str "it's")])))]) (Some (str " trailing"));
+        Item [] true (SWhile (EBin Lt (EName (str "x")) (ENum (str "3"))) (Blk [Item [] false (SCall (EMethod (EName (str "o")) (str "m") [])) None] [(false, str " end of block")])) None ] [].
+Example example_is_well_formed : wfb1 v51 cfg_example prog_example.
+Proof.
+  cbn. repeat split; try reflexivity; try discriminate; try (repeat constructor; fail);
+    try (intros q; destruct q; eexists; vm_compute; reflexivity).
+  all: try (repeat constructor; repeat split; reflexivity).
+  constructor; [|constructor]. cbn. repeat split; try reflexivity; try (intros q; destruct q; eexists; vm_compute; reflexivity).
+Qed.
+Example example_lexes_back :
+  lex_loop v51 (S (List.length (format0 cfg_example prog_example))) (format0 cfg_example prog_example) = Some (pprog cfg_example (nprog prog_example)).
+Proof. apply (format0_relexes v51 eq_refl QuoteMore.AutoDouble cfg_example eq_refl); [discriminate|exact example_is_well_formed]. Qed.
